@@ -121,6 +121,9 @@ type Kernel struct {
 	crashed bool
 	// Real, when set, passes every call through to the real kernel.
 	Real bool
+	// Quiet: system calls made while it is set are the harness's own
+	// observations: they are not counted and no fault applies to them.
+	Quiet bool
 }
 
 const rootIno = 1
